@@ -254,6 +254,18 @@ class ByteFlow:
             if tb is not None:
                 s = set_mask(tb, self.N)
                 return {1: cur & s, 0: cur & ~s}
+        if core.re.search(r"Iterator>?::all$|^std::iter::Iterator::all$", name) and len(args) == 2:
+            # `[d1, d2].iter().all(u8::is_ascii_hexdigit)`: when it holds, it holds for each element; when it fails nothing is known
+            recv = core.describe(self.prog, self.body, args[0])
+            elems = [y for y in core.desc_subterms(recv) if isinstance(y, tuple) and y and y[0] == "array"]
+            pred = core.describe(self.prog, self.body, args[1])
+            cls = None
+            if isinstance(pred, tuple) and pred and pred[0] == "fn" and isinstance(pred[1], str):
+                m2 = core.re.search(PREDICATE_RX, pred[1])
+                cls = _CLASSES[m2.group(2)] if m2 else None
+            if cls is not None and elems and any(self.is_alias_desc(e) for e in elems[0][1]) and \
+                    not [c for c in core.desc_calls(recv) if core.re.search(r"::(skip|take|step_by|filter|rev|skip_while|take_while)$", c[1])]:
+                return {1: cur & set_mask(cls, self.N), 0: cur}
         if core.re.search(r"Iterator>?::any$|^std::iter::Iterator::any$", name) and len(args) == 2:
             recv = core.describe(self.prog, self.body, args[0])
             tb = None
@@ -264,8 +276,11 @@ class ByteFlow:
             if tb is not None and cl[0] == "closure" and cl[1] in self.prog.bodies:
                 cb = self.prog.bodies[cl[1]]
                 r = core.describe(self.prog, cb, 0)
+                if r[0] == "call" and core.re.search(r"PartialEq.*::eq$", r[1]) and len(r[2]) == 2:
+                    # `|c| c == byte` on two references: the comparison is a call of <&u8 as PartialEq>::eq
+                    r = ("bin", "Eq", strip_conv(r[2][0]), strip_conv(r[2][1]))
                 if r[0] == "bin" and r[1] == "Eq":
-                    sides = [r[2], r[3]]
+                    sides = [strip_conv(r[2]), strip_conv(r[3])]
                     par = [x for x in sides if x[0] == "param"]
                     up = [x for x in sides if x[0] == "upvar"]
                     if len(par) == 1 and len(up) == 1 and up[0][1] < len(cl[2]) and self.is_alias_desc(cl[2][up[0][1]]):
